@@ -240,7 +240,44 @@ def analyse(src, drop_edge=None):
   return tree, fn, graphs
 
 
-def run_item(src, tier, mutate_graph=None):
+def graph_snapshot(g):
+  return (frozenset(g.exit), g.entry, frozenset(g.error),
+          {n: (tuple(n.next), tuple(n.prev)) for n in g.index.values()},
+          {k: frozenset(v) for k, v in g.stmt_next.items()}, {k: frozenset(v) for k, v in g.stmt_prev.items()})
+
+
+def graphs_after_analyses(fn, graphs):
+  """The dataflow analyses receive the graphs and must leave them as they are (the converters consult them afterwards):
+  run the standard pipeline (reaching definitions, reaching function definitions, liveness) on the very same graphs and
+  compare every graph with its snapshot; then the well-formedness checks once more."""
+  from malt.pyct import naming, qual_names, transformer
+  from malt.pyct.static_analysis import activity, liveness, reaching_definitions, reaching_fndefs
+  before = {f: graph_snapshot(g) for f, g in graphs.items()}
+  info = transformer.EntityInfo(name='f', source_code='', source_file=None, future_features=(), namespace={})
+  ctx = transformer.Context(info, naming.Namer({}), None)
+  try:
+    qual_names.resolve(fn)
+    activity.resolve(fn, ctx, None)
+    reaching_definitions.resolve(fn, ctx, graphs)
+    reaching_fndefs.resolve(fn, ctx, graphs)
+    liveness.resolve(fn, ctx, graphs)
+  except Exception as e:  # pylint:disable=broad-except
+    yield 'analysis-error', 'the analysis pipeline raised %s on the graphs: %s' % (type(e).__name__, str(e)[:120])
+    return
+  names = ('exit set', 'entry', 'error set', 'node links', 'stmt_next', 'stmt_prev')
+  for f, g in graphs.items():
+    after = graph_snapshot(g)
+    for k, (a, b) in enumerate(zip(before[f], after)):
+      if a != b:
+        yield 'graph-changed-by-analyses', 'running the dataflow analyses changed the %s of the graph of %s' % (
+            names[k], getattr(f, 'name', 'lambda'))
+        break
+    if not isinstance(f, ast.Lambda):
+      for kind, msg in static_checks(f, g):
+        yield 'static-after-analyses-' + kind, msg
+
+
+def run_item(src, tier, mutate_graph=None, analyses_after=False):
   tree, fn, graphs = analyse(src)
   viol = []
   ids = {}
@@ -262,6 +299,9 @@ def run_item(src, tier, mutate_graph=None):
       rev[i] = node
   if mutate_graph:
     mutate_graph(graphs[fn])
+  if analyses_after:
+    for kind, msg in graphs_after_analyses(fn, graphs):
+      viol.append((kind, msg, ()))
   inst = observe.instrument(tree, ids, fn_ids)
   code = compile(inst, '<c05inst>', 'exec')
   env = tapemod.Env(CAP[tier])
@@ -332,7 +372,7 @@ def signature(kind, body, src, tier):
     except SyntaxError:
       return None
     try:
-      v, _, _, _, _ = run_item(s, 'quick')
+      v, _, _, _, _ = run_item(s, 'quick', analyses_after=True)
     except Exception:  # pylint:disable=broad-except
       return None
     for x in v:
@@ -359,7 +399,10 @@ def check(item):
   tier = _S['tier']
   name, body = item
   src = item_source(item)
-  viol, nexec, ncap, trunc, outcomes = run_item(src, tier)
+  # every program up to 4 nodes and a fixed sixteenth of the larger ones also go through the analysis pipeline
+  import zlib
+  after = ps_size(body) <= 4 or zlib.crc32(src.encode()) % 16 == 0
+  viol, nexec, ncap, trunc, outcomes = run_item(src, tier, analyses_after=after)
   out = []
   seen = set()
   for kind, msg, tp in viol:
@@ -376,6 +419,16 @@ def check(item):
           'n': {'evaluations': nexec, 'programs': 1, 'executions': nexec, 'tape_cap_hits': ncap, 'exploration_truncated': int(trunc)},
           'outcome': repr(outcomes), 'nontrivial': src if nontriv else None,
           'sample': {'source': src, 'tapes_explored': nexec}}
+
+
+def ps_size(b):
+  n = 0
+  for s in b:
+    n += 1
+    for part in s[1:]:
+      if isinstance(part, tuple) and part and isinstance(part[0], tuple):
+        n += ps_size(part)
+  return n
 
 
 def exhaustive(tier, n):
